@@ -62,7 +62,7 @@ def _main(args, seed):
         case = body["case"] if "case" in body and "property" in body else body
         rec = common.Rec()
         try:
-            common.checked(mod, case, rec)
+            common.checked_anywhere(mod, case, rec)
         except common.Violation as v:
             print(f"replay: {v.msg}")
             print(f"VIOLATION property={mod.ID} replay={args.replay}")
@@ -100,7 +100,7 @@ def _main(args, seed):
         for case, msg in [cm for cm in cands[:6] for _ in range(3)]:
             rec = common.Rec()
             try:
-                common.checked(mod, case, rec)
+                common.checked_anywhere(mod, case, rec)
             except common.Violation as v:
                 path = common.write_replay(mod, case, v.msg, args.tier, seed)
                 print(f"violation: {v.msg}")
